@@ -519,7 +519,7 @@ SRT = "codelimit/common/ScanResultTable.py"
 LTD = "codelimit/common/LanguageTotalsDelta.py"
 STD = "codelimit/common/ScanTotalsDelta.py"
 V("C18", "text-previous-from-current", "fire", (SRT, "language_totals_previous = self._stp.language_total(language_totals.language)", "language_totals_previous = self._stc.language_total(language_totals.language)"),
-  "pre-fix: each language diffed against itself", "LanguageTotalsDelta-roles")
+  "pre-fix: each language diffed against itself", "roles")
 V("C18", "md-delta-args-swapped", "fire", (FM, "ltd = LanguageTotalsDelta(language_totals, language_totals_previous)", "ltd = LanguageTotalsDelta(language_totals_previous, language_totals)"),
   "delta reversed in Markdown only", "roles")
 V("C18", "delta-reversed", "fire", (LTD, "delta = total_loc - (self._language_totals_previous.loc if self._language_totals_previous else 0)",
@@ -539,8 +539,8 @@ V("C18", "languages-by-files", "fire", (STT, "self._languages_totals.values(), k
   "ordered by files", "languages_totals/order")
 V("C18", "findings-cut-11", "fire", (FT, "        functions = functions[:10]\n", "        functions = functions[:11]\n"), "eleven rows, 'N-10 more'", "format_text.print_findings")
 V("C18", "findings-more-minus-11", "fire", (FM, "{total_findings - 10} more rows", "{total_findings - 11} more rows"), "wrong remainder", "format_markdown.print_findings")
-V("C18", "findings-ge-10", "fire", (FT, "    if not full and total_findings > 10:\n        functions = functions[:10]", "    if not full and total_findings >= 10:\n        functions = functions[:10]"),
-  "claims '0 more rows'... inconsistent condition between cut and message", "format_text.print_findings")
+V("C18", "findings-ge-10-silent", "silent", (FT, "    if not full and total_findings > 10:\n        functions = functions[:10]", "    if not full and total_findings >= 10:\n        functions = functions[:10]"),
+  "the first ten of exactly ten findings are all of them: same output (the message condition is unchanged)")
 V("C18", "findings-local-k-silent", "silent", (FT, "    if not full and total_findings > 10:\n        functions = functions[:10]\n    for function in functions:",
                                              "    limit = 10\n    if not full and total_findings > limit:\n        functions = functions[:limit]\n    for function in functions:"),
   "cut-off constant named")
